@@ -358,6 +358,28 @@ def r14_3(prog, rep):
                         rep.fail(rid, "make_task/dtend-to-duration", mt.loc(n.get("line")), "DTEND becomes echs_instant_diff(%s, %s): operands swapped or wrong" % (a0, a1))
     if ok:
         rep.ok(rid, "make_task/dtend-to-duration", mt.loc(), "DTEND becomes a duration via echs_instant_diff(till, from)")
+    # ... of the two ends taken to UTC: the zone's offset is not the same at both ends when a DST switch lies between them
+    for b, i, x, line in mt.cfg.all_elems():
+        for c in calls(x):
+            if c.get("fn") != "echs_instant_diff":
+                continue
+            for ai, a in enumerate(c["a"][:2]):
+                t = lv(strip_casts(mt.cfg.resolve(a)))
+                srcs = []
+                for bb, ii, xx, ln in mt.cfg.all_elems():
+                    for l, kind, nn in writes(xx):
+                        if lv(l) == t:
+                            rhs = nn.get("init") if kind == "decl" else (nn.get("r") if nn.get("k") == "bin" and nn["op"] == "=" else None)
+                            if rhs is not None:
+                                r = strip_casts(mt.cfg.resolve(rhs))
+                                srcs.append(r.get("fn") if r.get("k") == "call" else show(r))
+                key = "make_task/duration-from-utc(%s)" % t
+                if srcs and all(s_ == "echs_instant_to_utc" for s_ in srcs):
+                    rep.ok(rid, key, mt.loc(c.get("line", line)), "%s is converted to UTC before the difference is taken" % t)
+                else:
+                    rep.fail(rid, key, mt.loc(c.get("line", line)), "the duration is computed from %s, which is defined by %s and not always by "
+                             "echs_instant_to_utc(): local wall-clock ends differ from the real length across a DST switch, the limit is an hour off" % (
+                                 t, sorted(set(map(str, srcs))) or "nothing in make_task"))
     typ = {}
     for b, i, x, line in mt.cfg.all_elems():
         for l, kind, n in writes(x):
